@@ -374,6 +374,30 @@ def run(prog: Program, chk: Check):
               "_wait_for_acknowledgement can return a frame that is not an ACKNOWLEDGE")
     chk.units.update({"dispatch_types": sorted(d.types), "dispatch_subject": d.subject})
 
+    # ---- C19-F a fan-out serves every recipient -------------------------------------------------------------------------------------------------
+    # `all(send(m) for m in loggers)` / `any(...)` stops at the first element that decides the result: a copy that could not be
+    # written to one logger ends the fan-out for the loggers after it.  A delivery written as a generator inside a
+    # short-circuiting builtin (or as operands of `and` / `or`) is therefore refused; a list comprehension or a loop is not.
+    Fo = chk.rule("C19-F", "no delivery of the manager is driven by a short-circuiting combinator (all / any over a generator that sends)", 1,
+                  "the copies of an acknowledgement (and every other fan-out) stop at the first recipient whose write fails")
+    writer_keys = {f_.key for f_ in prog.cls(MGR, "Module").methods.values() if f_.name in ("send_message", "send_ack")}
+    nshort = 0
+    for f_ in mm.methods.values():
+        for c_ in calls_in(f_.node):
+            if isinstance(c_.func, ast.Name) and c_.func.id in ("all", "any") and len(c_.args) == 1 and isinstance(c_.args[0], ast.GeneratorExp):
+                sends = False
+                for x_ in ast.walk(c_.args[0].elt):
+                    if isinstance(x_, ast.Call):
+                        st_, fi_, _d = ty.callee(f_, x_)
+                        if (fi_ is not None and (fi_.key in writer_keys or cg.may_call(fi_) & writer_keys)) or is_method_call(x_, ("send_message", "send_ack", "sendall")):
+                            sends = True
+                if sends:
+                    nshort += 1
+                    Fo.bad(fkey(f_, c_), where(f_, c_), f"{f_.qual}: `{norm(c_)[:90]}` delivers inside {c_.func.id}(): the generator is abandoned at the first "
+                           f"{'false' if c_.func.id == 'all' else 'true'} result, the recipients after it are never served")
+    if not nshort:
+        Fo.ok(f"{MGR}::MessageManager|no-short-circuit-fan-out", prog.module(MGR).rel, "no all()/any() over a sending generator in MessageManager")
+
     # ---- C19-R the request is read whole, the copies go to every logger ------------------------------------------------------------------
     Rq = chk.rule("C19-R", "read_message receives header and payload with MSG_WAITALL; logger_modules registers the module itself", 3,
                   "a control frame whose payload arrives in two TCP segments is taken for a dead peer (no acknowledgement, no logger copy); a logger table keyed by a client-chosen id drops the copy for one of two loggers that share it")
